@@ -405,9 +405,19 @@ def nan_base(ctx):
     return [gen_fill(ctx.rng, sh, "f") for sh in shapes]
 
 
-def enumerate_cases(ctx, fills, fam="all", orders="{0, 1, 3, 4}", label="design+cases", qforms=None, nanbase=()):
+def long_fills(ctx):
+    """Fills with a long axis (arg-reductions and scans only): up to 8 (thorough: 9) blocks, irregular chunkings."""
+    rng = ctx.rng
+    out = [gen_fill(rng, (5,), "i"), gen_fill(rng, (8,), "f", nans=1), gen_fill(rng, (4, 2), "i")]
+    if not ctx.quick:
+        out += [gen_fill(rng, (8,), "i"), gen_fill(rng, (9,), "f", nans=2), gen_fill(rng, (2, 5), "f", nans=2), gen_fill(rng, (7,), "i")]
+    return out
+
+
+def enumerate_cases(ctx, fills, fam="all", orders="{0, 1, 3, 4}", label="design+cases", qforms=None, nanbase=(), longfills=()):
     consts = {"Fam": fam, "Fills": TLA("{" + ", ".join(tla_fill(f) for f in fills) + "}"), "ZeroChunks": True,
               "NanBase": TLA("{" + ", ".join(tla_fill(f) for f in nanbase) + "}"),
+              "LongFills": TLA("{" + ", ".join(tla_fill(f) for f in longfills) + "}"),
               "Orders": TLA(orders), "EmptyAxes": True, "QForms": TLA(qforms or ctx.pick(QFORMS_Q, QFORMS_T))}
     # KeepdimsShapeOnly evaluates the reference twice per case: thorough tier (and selftest) only
     invs = [i for i in INVARIANTS if not (ctx.quick and i == "KeepdimsShapeOnly")]
@@ -608,15 +618,17 @@ def validate_records(ctx, recs, on_violation=None):
 def run(ctx):
     thorough = not ctx.quick
     fills = make_fills(ctx)
-    cases, _ = enumerate_cases(ctx, fills, orders=ctx.pick("{1, 3}", "{0, 1, 3, 4}"), nanbase=nan_base(ctx))
+    cases, _ = enumerate_cases(ctx, fills, orders=ctx.pick("{1, 3}", "{0, 1, 3, 4}"), nanbase=nan_base(ctx),
+                               longfills=long_fills(ctx))
     # share one chunking list per shape (the dump repeats it in every case)
     shared = {}
     for c in cases:
         key = tuple(c["c"]["shape"])
         c["c"]["chunkings"] = shared.setdefault(key, c["c"]["chunkings"])
     # (case, chunking) pairs, sampled per stratum (family; the NaN-placement family is its own stratum)
-    caps = ctx.pick({"fold": 2400, "arg": 600, "nanplace": 1200, "cum": 500, "topk": 400, "quant": 800},
-                    {"fold": 48000, "arg": 9000, "nanplace": 14000, "cum": 7000, "topk": 7000, "quant": 15000})
+    caps = ctx.pick({"fold": 2000, "arg": 450, "nanplace": 1100, "longarg": 300, "longcum": 350, "cum": 350, "topk": 350, "quant": 700},
+                    {"fold": 44000, "arg": 8000, "nanplace": 13000, "longarg": 5000, "longcum": 5000, "cum": 6000, "topk": 6000,
+                     "quant": 14000})
     strata = {}
     for c in cases:
         strata.setdefault(c["c"].get("grp", c["c"]["fam"]), []).append(c)
